@@ -43,8 +43,20 @@ MANIFEST = dict(
          "opaque value), values outside the C type's range (OverflowError).",
     technique="Lean 4 proof by induction over the parameter list + differential correspondence on emitted text and on compiled extensions",
 )
-MODULES = ["ShroudVerif.Props.C03", "ShroudVerif.Props.C03Tables"]
+MODULES = ["ShroudVerif.Props.C03", "ShroudVerif.Props.C03Tables", "ShroudVerif.Props.C03Lists"]
 THEOREMS = {
+    "ShroudVerif.Props.C03Lists": [
+        "Shroud.PyList.getList_converts_in_order",
+        "Shroud.PyList.getList_bad_item",
+        "Shroud.PyList.getList_not_iterable",
+        "Shroud.PyList.getList_total",
+        "Shroud.PyList.fill_seq_in_order",
+        "Shroud.PyList.fill_bad_item",
+        "Shroud.PyList.fill_broadcast",
+        "Shroud.PyList.toPyList_roundtrip",
+        "Shroud.PyList.char_typeError_iff",
+        "Shroud.PyList.charptr_bad_item",
+    ],
     "ShroudVerif.Props.C03Tables": [
         "Shroud.PyTables.stmts_one_address_per_unit",
         "Shroud.PyTables.stmts_goto_fail_consistent",
@@ -1227,7 +1239,13 @@ def run(ctx):
     for i in range(6 if thorough else 2):
         libs.append(pygen.random_c(r, "crn%d" % i, nfunc=10 if thorough else 6))
     extra = load_corpus()
-    dis_gen, dis_call = [], []
+    dis_gen, dis_call, dis_help = [], [], []
+    if drv.available():
+        nh = c03_helpers.run(ctx, drv, ACCEPTS, thorough, dis_help)
+        ctx.note("list_helper_cases (c++ and c: get_from_object_<T>_list, fill_from_PyObject_<T>_list, to_PyList, charptr)", nh)
+        ctx.note("disagreements_list_helpers", len(dis_help))
+        if dis_help:
+            ctx.tie_broken("pylist-helpers", dis_help[:6])
     for li, lib in enumerate(libs):
         check_library(ctx, drv if drv.available() else _NoDriver(), lib, thorough, r, dis_gen, dis_call,
                       extra_calls=extra if li == 0 else ())
